@@ -49,7 +49,7 @@ def sx_unit(job):
         out["findings"] = {k: v[0] for k, v in specs.contracts[name].findings.items()}
     if ur.error is None:
         for ob in cx.obligations:
-            out["obligations"].append({"name": ob.name, "query": cx.query(ob), "query_rel": cx.query(ob, relevant=True), "query_dir": cx.query(ob, relevant=True, level=0), "query_same": cx.query(ob, relevant=True, level="same"), "meta": ob.meta})
+            out["obligations"].append({"name": ob.name, "query": cx.query(ob), "query_rel": cx.query(ob, relevant=True), "query_dir": cx.query(ob, relevant=True, level=0), "query_same": cx.query(ob, relevant=True, level="same"), "query_frame": cx.query(ob, relevant=True, level="frame"), "meta": ob.meta})
         covs = cx.covers
         if len(covs) > 6:
             step = len(covs) / 6.0
@@ -76,8 +76,17 @@ def discharge_all(units, timeout_s, jobs, thorough):
         cv = [("cvc5-1.0.3", solve.BACKENDS["cvc5-1.0.3"])]
         # stage 1 (cheap, decides most obligations): cone-of-influence query on cvc5, short budget
         qsame = ob.pop("query_same", None)
-        first = [("rel", qrel, False)] + ([("same", qsame, False)] if qsame else [])
-        r = solve.solve_multi(first, 3.0, backends=cv)
+        qframe = ob.pop("query_frame", None)
+        r = None
+        if qframe:
+            # stage 0: "the same statement again in a later state" (shape-matched hypotheses only)
+            r = solve.solve_multi([("frame", qframe, False)], 3.0)
+        if r is None or r["status"] != "unsat":
+            first = [("rel", qrel, False)] + ([("same", qsame, False)] if qsame else [])
+            r0 = r
+            r = solve.solve_multi(first, 3.0, backends=cv)
+            if r0 is not None:
+                r["tried"] = {**r0.get("tried", {}), **r.get("tried", {})}
         if r["status"] != "unsat":
             # stage 2: the full query on both back ends races the definitions-only query
             r2 = solve.solve_multi([("full", ob["query"], True), ("rel", qrel, False)] + ([("same", qsame, False)] if qsame else []), timeout_s)
@@ -324,6 +333,7 @@ def main(argv=None):
             "native_battery": {k: driver_result.get(k) for k in ("evaluations", "distinct", "rule", "failures_found")} if driver_result else None,
             "syntactic_scans": [{"name": x["name"], "ok": x["ok"], "detail": x["detail"][:600]} for x in scan_results],
             "source_sha": repo.sha,
+            "bounded_stand_ins_not_counted_as_proved": P.get("bounded_units", []),
             "explanation": P.get("explanation", ""),
         },
         "assumptions": P["assumptions"],
